@@ -28,14 +28,18 @@ def get_number_of_partitions(m: nx.Graph) -> int:
 
 def refine_partitions(m: nx.Graph) -> Generator[nx.Graph, None, None]:
 
-    m_refined = partition_molecule_by_attribute(m, PARTITION)
+    # Iterate instead of recursing: the number of refinement rounds grows
+    # linearly with the size of e.g. unbranched chains and would otherwise
+    # exceed the interpreter's recursion limit.
+    while True:
+        m_refined = partition_molecule_by_attribute(m, PARTITION)
 
-    if get_number_of_partitions(m_refined) == get_number_of_partitions(m):
-        # No more refinement possible.
-        yield m_refined
-        return
+        if get_number_of_partitions(m_refined) == get_number_of_partitions(m):
+            # No more refinement possible.
+            yield m_refined
+            return
 
-    yield from refine_partitions(m_refined)
+        m = m_refined
 
 
 def assign_canonical_labels(m: nx.Graph) -> dict[int, int]:
